@@ -301,6 +301,9 @@ def be32 (n : Nat) : Bytes :=
   [UInt8.ofNat (n / 16777216 % 256), UInt8.ofNat (n / 65536 % 256), UInt8.ofNat (n / 256 % 256),
    UInt8.ofNat (n % 256)]
 
+/-- the bytes the yielded extensions span: 8 header bytes + payload each -/
+def extsSpan (exts : List (Bytes × Bytes)) : Nat := (exts.map fun sp => 8 + sp.2.length).sum
+
 /-- `end_of_index_entry::decode`: offset of the first extension if a well-formed EOIE is the last
 extension. `sha1` hashes the concatenated (signature, size) pairs. -/
 def eoieDecode (sha1 : Bytes → Bytes) (data : Bytes) : Option Nat :=
@@ -319,11 +322,12 @@ def eoieDecode (sha1 : Bytes → Bytes) (data : Bytes) : Option Nat :=
           if offset < 12 ∨ offset > startOfEoie then none
           else
             let region := (data.drop offset).take (startOfEoie - offset)
-            let (exts, consumed) := extIter region.length region
+            let (exts, _) := extIter region.length region
             let hashed := exts.flatMap fun (s, p) => s ++ be32 p.length
             if sha1 hashed ≠ checksum then none
-            -- the last chunk must end exactly where the EOIE starts (and there must be one)
-            else if exts.isEmpty ∨ consumed ≠ region.length then none
+            -- the last chunk that was yielded must end exactly where the EOIE starts (and there must
+            -- be one); the 8 header bytes of an extension whose size overruns the region do not count
+            else if exts.isEmpty ∨ extsSpan exts ≠ region.length then none
             else some offset
 
 /-- `index_entry_offset_table::decode` -/
